@@ -55,6 +55,17 @@ type concretiser struct {
 	rndNum *rand.Rand // numbers are rendered alike in all members of a spelling group
 }
 
+// padOf: spelling variants 3 and 5 write their delta-seconds with leading zeros (the same number)
+func padOf(sp int) int { return []int{0, 0, 0, 1, 0, 9, 0}[((sp%7)+7)%7] }
+
+func (c *concretiser) numPad(n, pad int) string {
+	s := c.num(n)
+	if pad > 0 && n >= 0 && n < CAP {
+		return strings.Repeat("0", pad) + s
+	}
+	return s
+}
+
 func (c *concretiser) num(n int) string {
 	switch {
 	case n == Invalid:
@@ -174,22 +185,23 @@ func (c *concretiser) renderCC(ds []directive, sp int) []string {
 
 func (c *concretiser) reqDirectives(rq *Rq) []directive {
 	var ds []directive
+	pad := padOf(rq.Sp)
 	for _, f := range rq.Fl {
 		ds = append(ds, directive{name: f})
 	}
 	if rq.Ma != None {
-		ds = append(ds, directive{"max-age", c.num(rq.Ma), true})
+		ds = append(ds, directive{"max-age", c.numPad(rq.Ma, pad), true})
 	}
 	if rq.Mf != None {
-		ds = append(ds, directive{"min-fresh", c.num(rq.Mf), true})
+		ds = append(ds, directive{"min-fresh", c.numPad(rq.Mf, pad), true})
 	}
 	if rq.Ms == NoArg {
 		ds = append(ds, directive{name: "max-stale"})
 	} else if rq.Ms != None {
-		ds = append(ds, directive{"max-stale", c.num(rq.Ms), true})
+		ds = append(ds, directive{"max-stale", c.numPad(rq.Ms, pad), true})
 	}
 	if rq.Sie != None {
-		ds = append(ds, directive{"stale-if-error", c.num(rq.Sie), true})
+		ds = append(ds, directive{"stale-if-error", c.numPad(rq.Sie, pad), true})
 	}
 	return ds
 }
@@ -199,6 +211,7 @@ func (c *concretiser) respDirectives(a *Ans) []directive {
 		return nil
 	}
 	var ds []directive
+	pad := padOf(a.Sp)
 	for _, f := range a.Fl {
 		if f == "no-cache" && a.Ncf == 1 {
 			ds = append(ds, directive{"no-cache", []string{`"X-Secret"`, `"x-secret"`, `"X-SECRET"`, `"x-other , X-secret"`}[c.rnd.Intn(4)], true})
@@ -220,13 +233,13 @@ func (c *concretiser) respDirectives(a *Ans) []directive {
 		ds = append(ds, directive{name: f})
 	}
 	if a.Ma != None {
-		ds = append(ds, directive{"max-age", c.num(a.Ma), true})
+		ds = append(ds, directive{"max-age", c.numPad(a.Ma, pad), true})
 	}
 	if a.Swr != None {
-		ds = append(ds, directive{"stale-while-revalidate", c.num(a.Swr), true})
+		ds = append(ds, directive{"stale-while-revalidate", c.numPad(a.Swr, pad), true})
 	}
 	if a.Sie != None {
-		ds = append(ds, directive{"stale-if-error", c.num(a.Sie), true})
+		ds = append(ds, directive{"stale-if-error", c.numPad(a.Sie, pad), true})
 	}
 	if len(ds) == 0 {
 		ds = append(ds, directive{name: "x-none"}) // Cache-Control present without known directives
@@ -238,31 +251,40 @@ func (c *concretiser) respDirectives(a *Ans) []directive {
 func urlOf(u, sp int) string {
 	host := fmt.Sprintf("res%d.test", u/10)
 	p := pathSuffix(u)
+	// (the last path segment contains a dot: an unreserved character like any other)
 	switch sp {
 	case 1:
-		return "HTTP://" + strings.ToUpper(host) + "/v/item" + p + "?q=%7e1"
+		return "HTTP://" + strings.ToUpper(host) + "/v/it.em" + p + "?q=%7e1"
 	case 2:
-		return "http://" + host + ":80/v/item" + p + "?q=%7E1"
+		return "http://" + host + ":80/v/it.em" + p + "?q=%7E1"
 	case 3:
-		return "http://" + host + "/v/./x/../item" + p + "?q=~1"
+		return "http://" + host + "/v/./x/../it.em" + p + "?q=~1"
 	case 4:
-		return "http://" + host + "/v/%69tem" + p + "?q=~1#frag"
+		return "http://" + host + "/v/%69t.em" + p + "?q=~1#frag"
 	case 5:
-		return "http://" + host + "/%76/item" + p + "?q=%7e1"
+		return "http://" + host + "/%76/it.em" + p + "?q=%7e1"
+	case 6:
+		return "http://" + host + "/v/it%2Eem" + p + "?q=~1"
+	case 7:
+		return "http://" + host + "/v/it%2eem" + p + "?q=%7E1"
 	default:
-		return "http://" + host + "/v/item" + p + "?q=~1"
+		return "http://" + host + "/v/it.em" + p + "?q=~1"
 	}
 }
 
-const NURLSpellings = 6
+const NURLSpellings = 8
 
 // URI class u = 10*host + path.  locOf renders a Location value naming class u.
 func locOf(u, form int) string {
 	switch form {
 	case 1:
-		return fmt.Sprintf("/v/item%s?q=~1", pathSuffix(u))
+		return fmt.Sprintf("/v/it.em%s?q=~1", pathSuffix(u))
 	case 2:
 		return urlOf(u, 2)
+	case 3: // a relative-path reference, resolved against the target (which lives in /v/)
+		return fmt.Sprintf("it.em%s?q=~1", pathSuffix(u))
+	case 4:
+		return fmt.Sprintf("../v/./it%%2Eem%s?q=~1", pathSuffix(u))
 	default:
 		return urlOf(u, 0)
 	}
